@@ -478,7 +478,7 @@ func (e *Env) index(ex *EIndex) Value {
 		if x.exploded(u.Elem()) {
 			return x.loadObject(e.st, x.elemRef(app("sbase", b.Term), i.Term), u.Elem())
 		}
-		es := x.TM.Sort(u.Elem())
+		es := x.TM.Key(u.Elem())
 		inner := Select(x.elemArr(e.st, es), app("sbase", b.Term))
 		return x.mk(Select(inner, i.Term), u.Elem())
 	case *types.Map:
@@ -492,7 +492,7 @@ func (e *Env) index(ex *EIndex) Value {
 			if x.exploded(arr.Elem()) {
 				return x.loadObject(e.st, x.elemRef(x.asTerm(b), i.Term), arr.Elem())
 			}
-			es := x.TM.Sort(arr.Elem())
+			es := x.TM.Key(arr.Elem())
 			inner := Select(x.elemArr(e.st, es), x.asTerm(b))
 			return x.mk(Select(inner, i.Term), arr.Elem())
 		}
@@ -533,7 +533,7 @@ func (e *Env) call(ex *ECall) Value {
 			return boolV(And(Not(Eq(m.Term, "0")), Select(Select(has, m.Term), x.asTerm(k))))
 		case "ncalls":
 			nm := exprText(ex.Args[0])
-			return intV(x.callCount(e.st, nm))
+			return intV(x.callCount(e.st, x.callKey(e.st, nm)))
 		case "lastret", "lastarg":
 			nm := exprText(ex.Args[0])
 			iv, ok := ex.Args[1].(*EInt)
@@ -565,6 +565,16 @@ func (e *Env) call(ex *ECall) Value {
 				e.errf("%v", err)
 			}
 			return x.mk(x.TM.Unbox(x.TM.Sort(t), app("ival", v.Term)), t)
+		case "zero":
+			tl, ok := ex.Args[0].(*EType)
+			if !ok {
+				e.errf("zero(type(T))")
+			}
+			t, err := x.P.ResolveType(tl.T, e.cf)
+			if err != nil {
+				e.errf("%v", err)
+			}
+			return x.mk(x.TM.Zero(t), t)
 		case "box":
 			v := e.eval(ex.Args[0])
 			return x.makeIface(v, v.Typ, types.NewInterfaceType(nil, nil))
@@ -579,7 +589,7 @@ func (e *Env) call(ex *ECall) Value {
 				r := x.elemRef(app("sbase", sl.Term), k.Term)
 				return Value{Term: r, Sort: SInt, Typ: types.NewPointer(u.Elem())}
 			}
-			es := x.TM.Sort(u.Elem())
+			es := x.TM.Key(u.Elem())
 			return Value{Typ: types.NewPointer(u.Elem()), Sort: SInt, Ptr: &Pointer{Base: app("sbase", sl.Term), Steps: []Step{{IsIndex: true, Index: k.Term, Struct: u.Elem()}}, Elem: u.Elem(), ElemBaseSort: es}}
 		case "bigval":
 			v := e.eval(ex.Args[0])
